@@ -197,12 +197,15 @@ func checkTTHRoundTrip(c TTHCase, cv *cov) (v *evid.Violation) {
 		var sink faultio.ScriptWriter
 		var target []byte
 		var bw bufiox.Writer
+		retain := &faultio.RetainWriter{} // a writer that keeps WriteBinary payloads by reference until Flush
 		switch c.Writer {
 		case 1:
 			target = append(make([]byte, 0, 64), prefix...)
 			bw = bufiox.NewBytesWriter(&target)
 		case 2:
 			bw = bufiox.NewDefaultWriter(&sink)
+		case 3:
+			bw = retain
 		}
 		for fi := 0; fi < c.Frames; fi++ {
 			p := c.params(fi)
@@ -258,6 +261,8 @@ func checkTTHRoundTrip(c TTHCase, cv *cov) (v *evid.Violation) {
 					return
 				}
 				stream = target[len(prefix):]
+			} else if c.Writer == 3 {
+				stream = retain.Out
 			} else {
 				stream = sink.Bytes()
 			}
@@ -530,7 +535,7 @@ func genTTHCase(t *rapid.T) TTHCase {
 	}
 	c.Payload = rapid.OneOf(rapid.IntRange(0, 64), rapid.IntRange(0, 5000), rapid.SampledFrom([]int{0, 4095, 4096, 8192, 70000})).Draw(t, "payload")
 	c.Frames = rapid.SampledFrom([]int{1, 1, 2, 3}).Draw(t, "frames")
-	c.Writer = rapid.IntRange(0, 2).Draw(t, "writer")
+	c.Writer = rapid.SampledFrom([]int{0, 1, 2, 2, 3}).Draw(t, "writer")
 	c.Reader = rapid.IntRange(0, 1).Draw(t, "reader")
 	c.Plan = genPlan(t, 0)
 	c.Plan.ErrAt = -1
@@ -573,7 +578,7 @@ func TestC06_Exhaustive(t *testing.T) {
 	}
 	parallelFor(65536, func(i int, b *evid.Batch) {
 		run(TTHCase{Flags: uint16(i), Seq: int32(i * 65537), Proto: []byte{0, 3, 4, 0x10, 0x11}[i%5], Int: []TTHIntEntry{{K: uint16(i), V: PStr{L: i % 7, S: byte(i)}}},
-			Payload: i % 5, Frames: 1, Writer: i % 3, Reader: (i / 3) % 2, Plan: faultio.Plan{Chunks: []int{1 + i%9}, ErrAt: -1}}, b)
+			Payload: i % 5, Frames: 1, Writer: i % 4, Reader: (i / 3) % 2, Plan: faultio.Plan{Chunks: []int{1 + i%9}, ErrAt: -1}}, b)
 	}, rec)
 	var sizes []int
 	for s := 9; s <= 400; s++ {
@@ -685,7 +690,7 @@ func TestC06_Vocabulary(t *testing.T) {
 			return
 		}
 		j := jobs[i]
-		c := TTHCase{Flags: j.f, Seq: int32(i), Proto: j.p, Int: j.is.entries, IntNonNil: j.is.nonNil, Payload: i % 7, Frames: 1 + i%2, Writer: i % 3, Reader: (i / 3) % 2, Plan: faultio.Plan{Chunks: []int{1 + i%11}, ErrAt: -1}}
+		c := TTHCase{Flags: j.f, Seq: int32(i), Proto: j.p, Int: j.is.entries, IntNonNil: j.is.nonNil, Payload: i % 7, Frames: 1 + i%2, Writer: i % 4, Reader: (i / 3) % 2, Plan: faultio.Plan{Chunks: []int{1 + i%11}, ErrAt: -1}}
 		switch j.sm {
 		case 1:
 			c.StrNonNil = true
@@ -792,9 +797,10 @@ func checkTTHDecode(c TTHFrameCase, cv *cov) *evid.Violation {
 	arena := guard.Get(len(in))
 	defer guard.Put(arena)
 	type res struct {
-		dp      ttheader.DecodeParam
-		err     error
-		readLen int
+		dp          ttheader.DecodeParam
+		err         error
+		readLen     int
+		textChanged string
 	}
 	for variant := 0; variant < 7; variant++ {
 		var r res
@@ -868,10 +874,27 @@ func checkTTHDecode(c TTHFrameCase, cv *cov) *evid.Violation {
 				br.Next(3)
 				r.dp, r.err = ttheader.Decode(ctx, br)
 				r.readLen = br.ReadLen() - 3
+				if r.err != nil {
+					// the error is a value of its own: what it says must not change when the reader is released
+					// and its buffers are used by others
+					t1 := r.err.Error()
+					br.Release(nil)
+					for _, sz := range []int{4096, 8192, 16384, 65536} {
+						scr := bufiox.NewDefaultReader(bytes.NewReader(bytes.Repeat([]byte{0xEE}, sz)))
+						scr.Next(sz)
+						scr.Release(nil)
+					}
+					if t2 := r.err.Error(); t2 != t1 {
+						r.textChanged = fmt.Sprintf("%q, and after the reader was released and its buffers reused: %q", clipStr(t1, 300), clipStr(t2, 300))
+					}
+				}
 			}
 		})
 		if p != nil {
 			return &evid.Violation{Msg: fmt.Sprintf("%s panicked: %v; input %s", name, p, hx(in)), Stack: st}
+		}
+		if r.textChanged != "" {
+			return evid.Failf("%s: the text of the returned error changed: first %s; input %s", name, r.textChanged, hx(in))
 		}
 		if r.readLen >= 0 {
 			if r.readLen > len(in) || r.readLen > 14+declared {
@@ -1350,4 +1373,11 @@ func TestC06_OversizedInfo(t *testing.T) {
 	rec.Merge(b)
 	rec.Sample(OversizedInfoCase{Entries: 65536, ValLen: 65532})
 	rec.SetExhaustive()
+}
+
+func clipStr(s string, n int) string {
+	if len(s) > n {
+		return s[:n] + "..."
+	}
+	return s
 }
